@@ -62,15 +62,21 @@ Pre(desc) == [t |-> "m", kv |-> [i \in 1..Len(desc) |->
                   CASE desc[i].type = "string" -> Str("PRE") [] desc[i].type = "int" -> Num("-7") [] desc[i].type = "float" -> Num("-7.5")
                     [] desc[i].type = "bool" -> Bool(TRUE)
                     [] desc[i].type = "struct:inl2" -> [t |-> "m", kv |-> << <<"IName", Str("PRE")>>, <<"ICount", Num("-7")>>, <<"IRest", Null>> >>]
-                    [] desc[i].type \in {"struct:sub", "struct:inl"} ->
+                    [] desc[i].type \in {"struct:sub", "struct:inl", "ptr:sub"} ->      \* (a pre-filled pointer field points at a pre-filled struct)
                          [t |-> "m", kv |-> [j \in 1..Len(StructOf(desc[i].type)) |->
                              <<StructOf(desc[i].type)[j].name, IF StructOf(desc[i].type)[j].type = "string" THEN Str("PRE") ELSE Num("-7")>>]]
                     [] OTHER -> Null>>]]
 
-Init == \E ids \in Picks(1, MaxFields) : \E inl \in InlineIds : \E pre \in BOOLEAN :
-          LET desc == FieldsOf(ids, inl) IN
-          \E doc \in DocsOver(KeysOf(desc, inl), 1) :
-             c = [ids |-> ids, inl |-> inl, desc |-> desc, doc |-> doc, pre |-> pre]
+\* a WIDE struct: every field of the pool at once (15 keyed fields and a catch-all), nearly every key of theirs present in one document -
+\* how many fields a struct has, or how many of them one document fills, is no part of the rules
+FullDoc(K) == LET sel == SelectSeq(KeyOrder, LAMBDA k : k \in K) IN [i \in 1..Len(sel) |-> <<sel[i], CHOOSE v \in Vals(sel[i]) : TRUE>>]
+Init == \/ \E ids \in Picks(1, MaxFields) : \E inl \in InlineIds : \E pre \in BOOLEAN :
+             LET desc == FieldsOf(ids, inl) IN
+             \E doc \in DocsOver(KeysOf(desc, inl), 1) :
+                c = [ids |-> ids, inl |-> inl, desc |-> desc, doc |-> doc, pre |-> pre]
+        \/ \E inl \in {"i_map", "i_str2", "none"} : \E pre \in BOOLEAN : \E drop \in SUBSET {"name", "count", "tags", "label", "u1"} :
+             LET desc == FieldsOf(PlainIdsAll, inl) IN
+                c = [ids |-> PlainIdsAll, inl |-> inl, desc |-> desc, doc |-> FullDoc(KeysOf(desc, inl) \ drop), pre |-> pre]
 Next == FALSE /\ c' = c
 Spec == Init /\ [][Next]_c
 Start == IF c.pre THEN Pre(c.desc) ELSE ZeroStruct(c.desc)
